@@ -3,6 +3,9 @@ records TraceHier.tla / TraceDdmin.tla validate.  Inputs (token sequences) are
 numbered 1..n in order of first appearance; 0 = none."""
 
 
+import os
+
+
 class Conv:
 
     def __init__(self, run):
@@ -74,6 +77,47 @@ class Conv:
                 seen.add(k)
                 res.append(c)
         return res, unconfirmed
+
+    # --------------------------------------------------------------- session
+    def session(self):
+        """-> trace record for TraceSession.tla (composition of the phases,
+        report, file at exit), or None for a run that did not finish with
+        status 0."""
+        import refreader
+        r = self.run
+        if r.timed_out or r.status != 0:
+            return None
+        ev = self.main_events()
+        begins = [e for e in ev if e['ev'] == 'reduce_begin']
+        if not begins:
+            return None
+        outfile = os.path.realpath(r.outfile)
+        out = []
+        for e in ev:
+            t = e['ev']
+            if t == 'reduce_begin':
+                out.append({'e': 'begin', 'strat': e['strat'],
+                            'base': self.num(e['base'])})
+            elif t == 'reduce_end':
+                out.append({'e': 'end', 'strat': e['strat'],
+                            'result': self.num(e['result'])})
+            elif t == 'write' and os.path.realpath(e['path']) == outfile:
+                out.append({'e': 'write', 'content': self.num(e['toks'])})
+        if r.out_text is None:
+            fnum = 0
+        else:
+            try:
+                fnum = self.num(refreader.lex(r.out_text))
+            except refreader.ReadError:
+                fnum = self.num(['<unreadable>', r.out_text])
+        unable = 'unable to minimize input file' in (r.stderr + r.stdout)
+        out.append({'e': 'exit', 'status': r.status, 'unable': unable,
+                    'file': fnum})
+        strat = {('ddmin', ): 'ddmin', ('hier', ): 'hierarchical',
+                 ('ddmin', 'hier'): 'hybrid'}.get(
+                     tuple(e['strat'] for e in begins), 'hybrid')
+        return {'strategy': strat, 'orig': self.num(begins[0]['base']),
+                'events': out, 'ninputs': max(1, len(self.inputs))}
 
     # ------------------------------------------------------------------ hier
     def hier(self):
